@@ -31,9 +31,17 @@ RULE = (
     "hdu index 0/1 of a two-HDU file; (e) every writer x target kind (plain, missing parent directories, bare file "
     "name in scratch cwd, ./name, relative dirs, pathlib) x overwrite x flip; (f) every event history up to the "
     "stated depth over {write A, write B} x {overwrite F,T} + delete per writer x flip, replayed from a fresh "
-    "directory and compared after every event with the 3-state file model. non-trivial = content is "
+    "directory and compared after every event with the 3-state file model; after every successful write of a history "
+    "the path is also read back through the LIBRARY reader (from_fits of the writer's class, Imaging.from_fits, "
+    "util *_via_fits_from + header_obj_from) inside the same process, and values, shape and the header objects "
+    "(NAXIS, NAXIS1/2, PIXSCALE*) must be those of the content just written (A and B differ in shape and pixel scale), "
+    "(g) DERIVED masked arrays: every mask with >= 1 masked and >= 1 unmasked pixel x flip, the array built with "
+    "store_native in {F,T} and then changed by arithmetic (+100, *2+1), with_new_array, item assignment at a masked "
+    "pixel, or built with skip_mask=True from a buffer that is non-zero at masked pixels, written through the file and "
+    "HDU routes: read-back must be where(mask, 0, values). non-trivial = content is "
     "orientation-sensitive (first axis >= 2 with injective values), or target is not a plain existing directory, or "
-    "the history writes onto an existing file at least once"
+    "the history writes onto an existing file at least once, or (derived) the stored buffer really holds non-zero "
+    "values at masked pixels"
 )
 ASSUMPTIONS = [
     "I/O code is value-oblivious: injective, non-symmetric, signed float64 labellings that include 5e-30 and -6e30 "
@@ -44,14 +52,21 @@ ASSUMPTIONS = [
     "resize law itself is property C14); Imaging re-normalises its PSF on construction, so the PSF of an Imaging "
     "round trip is compared at 1e-12 relative, everything else exactly",
     "flip_for_ds9 is switched per case by mutating conf.instance['general']['fits'] (same mechanism the library reads)",
+    "derived arrays use the isotropic scale only (the pixel scale is orthogonal to the masked-pixels-are-zero clause and is "
+    "covered by the plain routes); in the overwrite histories the library read-back accepts values up to the DS9 flip "
+    "(orientation belongs to the round-trip routes, A and B differ in shape so stale content cannot hide) and, for an "
+    "anisotropic content, also the header form PIXSCALE=<y scale> that is already reported as pixel_scale_header:anisotropic",
 ]
 BOUNDS = {
     "quick": "1D length <= 6 (all masks); 2D all masks of all shapes with <= 6 cells (1xN, Nx1, 2x2, 2x3, 3x2) + 4 fixed "
     "masks on 3x3, 4x3, 3x4, 2x5; kernels: all shapes <= 6 cells + 3x3, 4x3, 3x4, 5x5; 3 scales x 2 flips; Imaging: 5 frames x "
     "4 psf shapes (incl. none) x 2 mask modes; targets: 9 writers x 9 target kinds x overwrite x flip; overwrite histories: "
-    "all sequences of depth 1..3 over 5 events (155) x 8 writers x 2 flips",
+    "all sequences of depth 1..3 over 5 events (155) x 8 writers x 2 flips (library read-back after every successful write); "
+    "derived arrays: 1D all mixed masks of length <= 5, 2D all mixed masks of all shapes with <= 4 cells and of 2x3, 3x2 + fixed "
+    "masks on 1x5, 5x1, 1x6, 6x1, 3x3, 4x3, 3x4, 2x5; 5 (1D) / 6 (2D) derivations x {file, hdu} x 2 flips",
     "thorough": "1D length <= 9 (all masks); 2D all masks of all shapes with <= 9 cells + all masks of 4x3 and 3x4; kernels as "
-    "quick + 7x1, 1x7, 5x3; Imaging as quick; targets as quick; overwrite histories: all sequences of depth 1..4 (780) x 8 writers x 2 flips",
+    "quick + 7x1, 1x7, 5x3; Imaging as quick; targets as quick; overwrite histories: all sequences of depth 1..4 (780) x 8 writers x 2 flips; "
+    "derived arrays: 1D all mixed masks of length <= 7, 2D all mixed masks of all shapes with <= 6 cells + fixed masks on the 4 larger frames",
 }
 
 SCALES2 = [0.7, (0.5, 2.0), (2.0, 0.5)]
@@ -115,6 +130,11 @@ def cases(tier, seed):
             for si in range(len(SCALES1)):
                 for f in flips:
                     yield ["mask1d", seed, f, n, bits, si]
+    # (g) derived 1D arrays
+    for n in range(2, (5 if quick else 7) + 1):
+        for bits in range(1, 2 ** n - 1):
+            for f in flips:
+                yield ["deriv1d", seed, f, n, bits]
     # (c) kernels
     kshapes = dom.shapes_cells(6) + [(3, 3), (4, 3), (3, 4), (5, 5)]
     if not quick:
@@ -167,6 +187,16 @@ def cases(tier, seed):
                     if bits != 2 ** n - 1:
                         yield ["arr2d", seed, f, h, w, bits, si]
                     yield ["mask2d", seed, f, h, w, bits, si]
+    # (g) derived 2D arrays, fewest cells first
+    full = dom.shapes_cells(4) + [(2, 3), (3, 2)] if quick else dom.shapes_cells(6)
+    for (h, w) in dom.shapes_cells(6) + BIG_FRAMES:
+        n = h * w
+        menu = range(2 ** n) if (h, w) in full else _fixed_masks(h, w)
+        for bits in menu:
+            if bits == 0 or bits == 2 ** n - 1:
+                continue
+            for f in flips:
+                yield ["deriv2d", seed, f, h, w, bits]
 
 
 # ----------------------------------------------------------------------------- value menus / reference helpers
@@ -746,6 +776,148 @@ def run_mask1d(v, td, seed, flip, n, bits, si):
     attempt(v, "Mask1D.file:two-hdu", multi_route)
 
 
+def _derived_kind(got, exp, m):
+    """None | 'shape' | 'masked-not-zero' | 'orientation' | 'values' for a derived masked array (exp is 0 where m)."""
+    got = np.asarray(got)
+    if got.shape != exp.shape:
+        return "shape"
+    if np.array_equal(got, exp):
+        return None
+    if np.array_equal(got[~m], exp[~m]):
+        return "masked-not-zero"  # every unmasked pixel is right, so the difference sits at masked pixels only
+    if np.array_equal(got, np.flipud(exp) if exp.ndim == 2 else exp[::-1]):
+        return "orientation"
+    return "values"
+
+
+def _derived_routes(v, td, cls_name, objs, m, flip, reader_file, reader_hdu, special=None):
+    """File and HDU route for every derived object; objs = [(tag, layout, object, expected native values)]."""
+    stored_garbage = False
+    rm = np.flipud(m) if (flip and m.ndim == 2) else m
+    for tag, layout, d, exp0 in objs:
+        pre = "%s.%%s:derived-%s" % (cls_name, layout)
+        exp = exp0
+        try:
+            buf = np.asarray(d._array)
+            if buf.shape == m.shape and bool(np.any(buf[m] != 0.0)):
+                stored_garbage = True
+        except Exception:  # noqa: BLE001  (only feeds the non-triviality census)
+            pass
+        nat = np.array(d.native)
+        if nat.shape == exp0.shape and not np.array_equal(nat, exp0) and np.array_equal(nat[~m], exp0[~m]):
+            # the object's own .native (not I/O) is non-zero at masked pixels: own class, I/O then held to .native
+            v.ok(False, "%s.native:masked-not-zeroed[derived-%s]" % (cls_name, layout),
+                 lambda: "%s %s: .native = %s for mask %s" % (cls_name, tag, nat.tolist(), m.tolist()))
+            exp = nat
+        else:
+            v.ok(_derived_kind(nat, exp0, m) is None, "%s.native:derived-%s:values" % (cls_name, layout),
+                 lambda: "%s %s: .native = %s, expected %s" % (cls_name, tag, nat.tolist(), exp0.tolist()))
+        rexp = np.flipud(exp) if (flip and exp.ndim == 2) else exp
+
+        def file_route():
+            p = os.path.join(td, "d_%s.fits" % tag.replace(":", "_"))
+            d.output_to_fits(file_path=p)
+            raw = raw_hdus(p)
+            v.ok(len(raw) == 1, (pre % "file") + ":n-hdus", lambda: "%d HDUs" % len(raw))
+            kind = _derived_kind(raw[0][0], rexp, rm)
+            v.ok(kind is None, (pre % "file") + (":masked-not-zero" if kind == "masked-not-zero" else ":raw-%s" % (kind or "values")),
+                 lambda: "%s %s (mask %s, flip=%s): on-disk data %s, expected %s"
+                 % (cls_name, tag, m.tolist(), flip, raw[0][0].tolist(), rexp.tolist()))
+            got = np.asarray(reader_file(p))
+            kind = _derived_kind(got, exp, m)
+            v.ok(kind is None, (pre % "file") + ":" + (kind or "values"),
+                 lambda: "%s %s (mask %s, flip=%s): output_to_fits -> from_fits read back %s, expected %s"
+                 % (cls_name, tag, m.tolist(), flip, got.tolist(), exp.tolist()))
+            v.ok(got.dtype == np.dtype("float64"), (pre % "file") + ":dtype", lambda: "dtype %s" % got.dtype)
+
+        attempt(v, pre % "file", file_route)
+
+        def hdu_route():
+            hd = d.hdu_for_output
+            if special is None:
+                kind = _derived_kind(hd.data, rexp, rm)
+                v.ok(kind is None, (pre % "hdu") + (":masked-not-zero" if kind == "masked-not-zero" else ":raw-%s" % (kind or "values")),
+                     lambda: "%s %s (mask %s, flip=%s): hdu_for_output.data %s, expected %s"
+                     % (cls_name, tag, m.tolist(), flip, np.asarray(hd.data).tolist(), rexp.tolist()))
+            got = np.asarray(reader_hdu(hd))
+            kind = _derived_kind(got, exp, m)
+            cls = (pre % "hdu") + ":" + (kind or "values")
+            if kind == "orientation" and special:
+                cls = special
+            v.ok(kind is None, cls,
+                 lambda: "%s %s (mask %s, flip=%s): hdu_for_output -> from_primary_hdu read back %s, expected %s"
+                 % (cls_name, tag, m.tolist(), flip, got.tolist(), exp.tolist()))
+
+        attempt(v, pre % "hdu", hdu_route)
+    return stored_garbage
+
+
+def run_deriv2d(v, td, seed, flip, h, w, bits):
+    import autoarray as aa
+
+    m = dom.mask_from_bits(h, w, bits)
+    ps = SCALES2[0]
+    vals = vals_for(seed, h * w, "d2", h, w).reshape(h, w)
+    garb = vals_for(seed, h * w, "d2g", h, w).reshape(h, w)  # injective, so non-zero at every pixel
+    mask = aa.Mask2D(mask=m.copy(), pixel_scales=ps)
+    z = lambda x: np.where(m, 0.0, x)  # noqa: E731
+    first_masked = tuple(int(t) for t in np.argwhere(m)[0])
+
+    def base(sn):
+        return aa.Array2D(values=vals.copy(), mask=mask, store_native=sn)
+
+    objs = [
+        ("slim:add", "slim", base(False) + 100.0, z(vals + 100.0)),
+        ("native:add", "native", base(True) + 100.0, z(vals + 100.0)),
+        ("native:mul-add", "native", base(True) * 2 + 1, z(vals * 2 + 1)),
+        ("native:with_new_array", "native", base(True).with_new_array(garb.copy()), z(garb)),
+    ]
+    b = base(True)
+    b[first_masked] = 777.5
+    objs.append(("native:setitem-masked", "native", b, z(vals)))
+    objs.append(("native:skip_mask", "native", aa.Array2D(values=garb.copy(), mask=mask, store_native=True, skip_mask=True), z(garb)))
+    stored = _derived_routes(
+        v, td, "Array2D", objs, m, flip,
+        lambda p: aa.Array2D.from_fits(file_path=p, pixel_scales=ps).native,
+        lambda hd: aa.Array2D.from_primary_hdu(primary_hdu=hd).native,
+    )
+    v.nontrivial = stored
+    v.outcome = "deriv2d:flip%d:%s" % (flip, "stored-garbage" if stored else "buffers-clean")
+
+
+def run_deriv1d(v, td, seed, flip, n, bits):
+    import autoarray as aa
+
+    m = dom.mask_from_bits(1, n, bits)[0]
+    s = SCALES1[0]
+    vals = vals_for(seed, n, "d1", n)
+    garb = vals_for(seed, n, "d1g", n)
+    mask = aa.Mask1D(mask=m.copy(), pixel_scales=(s,))
+    z = lambda x: np.where(m, 0.0, x)  # noqa: E731
+    first_masked = int(np.argwhere(m)[0][0])
+
+    def base(sn):
+        return aa.Array1D(values=vals.copy(), mask=mask, store_native=sn)
+
+    objs = [
+        ("slim:add", "slim", base(False) + 100.0, z(vals + 100.0)),
+        ("native:add", "native", base(True) + 100.0, z(vals + 100.0)),
+        ("native:mul-add", "native", base(True) * 2 + 1, z(vals * 2 + 1)),
+        ("native:with_new_array", "native", base(True).with_new_array(garb.copy()), z(garb)),
+    ]
+    b = base(True)
+    b[first_masked] = 777.5
+    objs.append(("native:setitem-masked", "native", b, z(vals)))
+    stored = _derived_routes(
+        v, td, "Array1D", objs, m, flip,
+        lambda p: aa.Array1D.from_fits(file_path=p, pixel_scales=s).native,
+        lambda hd: aa.Array1D.from_primary_hdu(primary_hdu=hd).native,
+        special="Array1D.hdu-roundtrip:flip" if flip else None,
+    )
+    v.nontrivial = stored
+    v.outcome = "deriv1d:flip%d:%s" % (flip, "stored-garbage" if stored else "buffers-clean")
+
+
 def _imaging_parts(seed, h, w, pshape, masked):
     data = vals_for(seed, h * w, "imd", h, w).reshape(h, w)
     noise = np.abs(vals_for(seed, h * w, "imn", h, w)).reshape(h, w)
@@ -834,7 +1006,8 @@ def run_imaging(v, td, seed, flip, h, w, pi, masked, si):
 
 
 def _content(aa, writer, which, seed):
-    """Build object `which` in {'A','B'} for `writer`; returns (write(path, overwrite), read(path)->ndarray, expected, rawflip)."""
+    """Build object `which` in {'A','B'} for `writer`; returns (write(path, overwrite), read(path)->ndarray, expected,
+    read_with_headers(path)->(ndarray, {name: header object}), expected pixel scales). A and B differ in shape and scale."""
     two_d = FAMILY[writer].endswith("2d_to_fits")
     if two_d:
         h, w = (2, 3) if which == "A" else (4, 3)
@@ -853,39 +1026,55 @@ def _content(aa, writer, which, seed):
             mk[3] = True
     ps2 = (0.5, 2.0) if which == "B" else 0.7
     ps1 = 2.0 if which == "B" else 0.7
+    ups = 2.0 if which == "B" else 0.7  # PIXSCALE card of the util writers
+    eps2 = norm_scales(ps2, 2)
+
+    def rdh_arr(cls):
+        """Library reader returning (native values, the header objects it attached)."""
+        def rdh(p):
+            kw = {"hdu": 0} if cls is aa.Kernel2D else {}
+            o = cls.from_fits(file_path=p, pixel_scales=(ps2 if two_d else ps1), **kw)
+            hd = o.header
+            return np.array(o.native), {"header_sci_obj": None if hd is None else hd.header_sci_obj,
+                                        "header_hdu_obj": None if hd is None else hd.header_hdu_obj}
+        return rdh
 
     if writer == "Array2D":
         o = aa.Array2D.no_mask(values=vals.copy(), pixel_scales=ps2)
-        return o.output_to_fits, (lambda p: np.array(aa.Array2D.from_fits(file_path=p, pixel_scales=ps2).native)), vals
+        return o.output_to_fits, (lambda p: np.array(aa.Array2D.from_fits(file_path=p, pixel_scales=ps2).native)), vals, rdh_arr(aa.Array2D), eps2
     if writer == "Array2D.masked":
         o = aa.Array2D(values=vals.copy(), mask=aa.Mask2D(mask=mk.copy(), pixel_scales=ps2))
-        return o.output_to_fits, (lambda p: np.array(aa.Array2D.from_fits(file_path=p, pixel_scales=ps2).native)), np.where(mk, 0.0, vals)
+        return o.output_to_fits, (lambda p: np.array(aa.Array2D.from_fits(file_path=p, pixel_scales=ps2).native)), np.where(mk, 0.0, vals), rdh_arr(aa.Array2D), eps2
     if writer == "Kernel2D":
         o = aa.Kernel2D.no_mask(values=vals.copy(), pixel_scales=ps2)
-        return o.output_to_fits, (lambda p: np.array(aa.Kernel2D.from_fits(file_path=p, hdu=0, pixel_scales=ps2).native)), vals
+        return o.output_to_fits, (lambda p: np.array(aa.Kernel2D.from_fits(file_path=p, hdu=0, pixel_scales=ps2).native)), vals, rdh_arr(aa.Kernel2D), eps2
     if writer == "Mask2D":
         o = aa.Mask2D(mask=mk.copy(), pixel_scales=ps2)
-        return o.output_to_fits, (lambda p: np.array(aa.Mask2D.from_fits(file_path=p, pixel_scales=ps2))), mk
+        rd = lambda p: np.array(aa.Mask2D.from_fits(file_path=p, pixel_scales=ps2))  # noqa: E731
+        return o.output_to_fits, rd, mk, (lambda p: (rd(p), {})), eps2
     if writer == "util2d":
         fn = aa.util.array_2d.numpy_array_2d_to_fits
 
         def wr(file_path, overwrite=False):
-            return fn(array_2d=vals.copy(), file_path=file_path, overwrite=overwrite, header_dict={"PIXSCALE": 0.7})
+            return fn(array_2d=vals.copy(), file_path=file_path, overwrite=overwrite, header_dict={"PIXSCALE": ups})
 
-        return wr, (lambda p: aa.util.array_2d.numpy_array_2d_via_fits_from(file_path=p, hdu=0)), vals
+        rd = lambda p: aa.util.array_2d.numpy_array_2d_via_fits_from(file_path=p, hdu=0)  # noqa: E731
+        return wr, rd, vals, (lambda p: (rd(p), {"header_obj_from": aa.util.array_2d.header_obj_from(file_path=p, hdu=0)})), (ups, ups)
     if writer == "Array1D":
         o = aa.Array1D(values=vals.copy(), mask=aa.Mask1D(mask=mk.copy(), pixel_scales=(ps1,)))
-        return o.output_to_fits, (lambda p: np.array(aa.Array1D.from_fits(file_path=p, pixel_scales=ps1).native)), np.where(mk, 0.0, vals)
+        return o.output_to_fits, (lambda p: np.array(aa.Array1D.from_fits(file_path=p, pixel_scales=ps1).native)), np.where(mk, 0.0, vals), rdh_arr(aa.Array1D), (ps1,)
     if writer == "Mask1D":
         o = aa.Mask1D(mask=mk.copy(), pixel_scales=(ps1,))
-        return o.output_to_fits, (lambda p: np.array(aa.Mask1D.from_fits(file_path=p, pixel_scales=ps1))), mk
+        rd = lambda p: np.array(aa.Mask1D.from_fits(file_path=p, pixel_scales=ps1))  # noqa: E731
+        return o.output_to_fits, rd, mk, (lambda p: (rd(p), {})), (ps1,)
     if writer == "util1d":
         fn = aa.util.array_1d.numpy_array_1d_to_fits
 
         def wr1(file_path, overwrite=False):
-            return fn(array_1d=vals.copy(), file_path=file_path, overwrite=overwrite, header_dict={"PIXSCALE": 0.7})
+            return fn(array_1d=vals.copy(), file_path=file_path, overwrite=overwrite, header_dict={"PIXSCALE": ups})
 
-        return wr1, (lambda p: np.asarray(aa.util.array_1d.numpy_array_1d_via_fits_from(file_path=p, hdu=0), dtype=float)), vals
+        rd = lambda p: np.asarray(aa.util.array_1d.numpy_array_1d_via_fits_from(file_path=p, hdu=0), dtype=float)  # noqa: E731
+        return wr1, rd, vals, (lambda p: (rd(p), {"header_obj_from": aa.util.array_2d.header_obj_from(file_path=p, hdu=0)})), (ups,)
     raise ValueError(writer)
 
 
@@ -917,6 +1106,17 @@ class _ImagingIO:
     def raw_expected(self):
         return [self.exp["data"], self.exp["psf"], self.exp["noise_map"]]
 
+    def read_back(self, file_path):
+        d, p, n = _paths3(file_path)
+        im = self.aa.Imaging.from_fits(pixel_scales=self.ps, data_path=d, noise_map_path=n, psf_path=p)
+        eps = norm_scales(self.ps, 2)
+        out = []
+        for label, o, e in (("data", im.data, self.exp["data"]), ("psf", im.psf, self.exp["psf"]), ("noise_map", im.noise_map, self.exp["noise_map"])):
+            hd = o.header  # Imaging re-normalises its PSF, which drops the header object: only present headers are judged
+            hdrs = {} if hd is None else {"header_sci_obj": hd.header_sci_obj, "header_hdu_obj": hd.header_hdu_obj}
+            out.append((label, np.array(o.native), e, hdrs, eps))
+        return out
+
 
 class _IO:
     def __init__(self, aa, writer, seed):
@@ -935,6 +1135,21 @@ class _IO:
         else:
             self.c[which][0](file_path=p, overwrite=overwrite)
 
+    def read_back(self, which, p):
+        """[(label, values read by the LIBRARY reader, expected values, {name: header object}, expected scales)]."""
+        if self.multi:
+            return self.c[which].read_back(p)
+        c = self.c[which]
+        got, hdrs = c[3](p)
+        return [("", got, np.asarray(c[2]), hdrs, c[4])]
+
+    def expected_headers(self, which):
+        """[(expected shape, expected scales)] per file of content `which`."""
+        if self.multi:
+            eps = norm_scales(self.c[which].ps, 2)
+            return [(np.asarray(e).shape, eps) for e in self.c[which].raw_expected()]
+        return [(np.asarray(self.c[which][2]).shape, self.c[which][4])]
+
     def observe(self, p):
         """'absent' | 'A' | 'B' | 'partial' | 'other' from the files on disk.
 
@@ -951,8 +1166,10 @@ class _IO:
             try:
                 exps = self.c[which].raw_expected() if self.multi else [np.asarray(self.c[which][2], dtype=float)]
                 good = True
+                self.disk_headers = []
                 for f, e in zip(self.files(p), exps):
                     raw = raw_hdus(f)
+                    self.disk_headers.append(raw[0][1] if raw else None)
                     if len(raw) != 1 or raw[0][0] is None or raw[0][0].shape != e.shape:
                         good = False
                         break
@@ -1038,7 +1255,7 @@ def run_target(v, td, seed, flip, writer, tkind, overwrite):
     v.ok(got_rel == "A", pre + ":content-at-given-path", lambda: "%s after write to %r: given path holds %s" % (writer, str(p), got_rel))
     # the library reader accepts the same path spelling (shape only: values / orientation belong to the routes)
     if not io.multi:
-        _, rd, exp = io.c["A"]
+        _, rd, exp = io.c["A"][:3]
 
         def read_back():
             got = np.asarray(rd(p))
@@ -1077,6 +1294,57 @@ def model_step(state, ev):
     if state != "absent" and not ow:
         return state, True
     return which, False
+
+
+def _header_problems(hdr, shape, eps):
+    """Problems of one header object w.r.t. the content that is on disk now (shape, pixel scales)."""
+    if hdr is None:
+        return ["no header object"]
+    out = []
+    want = [("NAXIS", len(shape)), ("NAXIS1", shape[-1])] + ([("NAXIS2", shape[0])] if len(shape) == 2 else [])
+    for key, val in want:
+        if key not in hdr:
+            out.append("%s missing" % key)
+        elif int(hdr[key]) != int(val):
+            out.append("%s=%s, content has %s" % (key, hdr[key], val))
+    g = header_scales(hdr, len(eps))
+    if g is None:
+        out.append("no PIXSCALE card")
+    elif not _sclose(g, eps):
+        aniso = len(eps) == 2 and eps[0] != eps[1]
+        if not (aniso and _sclose(g, (eps[0], eps[0]))):  # that form is reported as pixel_scale_header:anisotropic
+            out.append("pixel scale cards give %s, content has %s" % (g, eps))
+    return out
+
+
+def _check_reader(v, io, which, p, hist):
+    """After a successful write of `which`: the file's header and the LIBRARY reader (values, shape, header objects)
+    must show `which` - also when the same path was read before with other content in this process."""
+    wr = io.writer
+    for (shape, eps), hdr in zip(io.expected_headers(which), getattr(io, "disk_headers", [])):
+        bad = _header_problems(hdr, shape, eps)
+        v.ok(not bad, "overwrite:%s:disk-header" % wr,
+             lambda: "%s history [%s]: header on disk after writing %s: %s" % (wr, hist, which, "; ".join(bad)))
+
+    def go():
+        for label, got, exp, hdrs, eps in io.read_back(which, p):
+            got = np.asarray(got)
+            exp = np.asarray(exp)
+            same = got.shape == exp.shape
+            if same:
+                g, e = got.astype(float), exp.astype(float)
+                fl = np.flipud(e)  # orientation is the round-trip routes' business, not the overwrite model's
+                same = bool(np.allclose(g, e, rtol=1e-12, atol=0.0) or np.allclose(g, fl, rtol=1e-12, atol=0.0))
+            v.ok(same, "overwrite:%s:reader-values" % wr,
+                 lambda: "%s history [%s]: library reader %s returned %s (shape %s) after writing %s = %s"
+                 % (wr, hist, label, got.tolist(), got.shape, which, exp.tolist()))
+            for name in sorted(hdrs):
+                bad = _header_problems(hdrs[name], exp.shape, eps)
+                v.ok(not bad, "overwrite:%s:reader-header" % wr,
+                     lambda: "%s history [%s]: library reader %s %s after writing %s (shape %s, scales %s): %s"
+                     % (wr, hist, label, name, which, exp.shape, eps, "; ".join(bad)))
+
+    attempt(v, "overwrite:%s:reader" % wr, go)
 
 
 def run_overwrite(v, td, seed, flip, writer, events):
@@ -1128,6 +1396,8 @@ def run_overwrite(v, td, seed, flip, writer, events):
             state = "diverged"
             break  # later events would be judged against a state the file is not in
         state = nxt
+        if raised is None and not must_raise:
+            _check_reader(v, io, which, p, hist)
     v.nontrivial = (rej + repl) > 0
     v.outcome = "overwrite:final=%s:rejected=%d:replaced=%d" % (state, rej, repl)
 
@@ -1141,4 +1411,6 @@ RUNNERS = {
     "imaging": run_imaging,
     "target": run_target,
     "overwrite": run_overwrite,
+    "deriv2d": run_deriv2d,
+    "deriv1d": run_deriv1d,
 }
